@@ -5,6 +5,7 @@
 From Coq Require Import ZArith List Bool.
 From V Require Import rcache.PyList rcache.RCacheModel rcache.RCacheSpec rcache.RQueryModel rcache.RQuerySpec
   rcache.RQueryThm rcache.RCacheThm rcache.RCacheQuery.
+From V Require rr.RRBase rr.RRNorm rcache.RReplace rcache.RReplaceThm.
 Import ListNotations.
 Open Scope Z_scope.
 
@@ -78,6 +79,36 @@ Theorem C12_slice_meaning : forall l,
   (forall k, py_index l (Z.of_nat k) = nth_error l k).
 Proof. exact slice_meaning. Qed.
 Print Assumptions C12_slice_meaning.
+
+(* replace() returns a rule differing only in the named parameters: over C01's constructor model
+   rr/RRNorm.normalize, rcache/RReplace.v models the recording of `_original_rule` (which keys are absent,
+   recorded as None because the value was derived from dtstart, or recorded as the normalised tuple) and
+   replace() = constructor (attributes + recorded dictionary + named parameters).  For ALL argument records
+   r and ALL updates u (any subset of freq, dtstart, interval, wkst, count, until, every BY-part set / changed /
+   removed) the replaced rule is the constructor applied to the original arguments with the named ones
+   changed.  replace_guard excludes exactly the open finding F-C12-replace-nth (weekday occurrence number
+   on a rule with freq > MONTHLY, new freq <= MONTHLY, byweekday not named) and the bysetpos=() corner. *)
+Theorem C12_replace_only_named : forall r u,
+  RReplaceThm.replace_guard r u -> RReplace.replace r u = RReplace.replace_spec r u.
+Proof. exact RReplaceThm.replace_only_named. Qed.
+Print Assumptions C12_replace_only_named.
+
+Theorem C12_replace_nth_refuted :
+  RReplace.replace (RReplaceThm.mk_raw0 RRBase.WEEKLY None (Some [(0, 1)])) (RReplaceThm.upd_freq RRBase.MONTHLY) <>
+  RReplace.replace_spec (RReplaceThm.mk_raw0 RRBase.WEEKLY None (Some [(0, 1)])) (RReplaceThm.upd_freq RRBase.MONTHLY).
+Proof. exact RReplaceThm.replace_nth_refuted. Qed.
+Print Assumptions C12_replace_nth_refuted.
+
+(* non-vacuity, the class of seeded change C12-2: YEARLY with explicit bymonth, replace(dtstart=15 Sep):
+   the guard holds, and the dtstart-derived day of month follows the new dtstart *)
+Theorem C12_replace_example :
+  RReplaceThm.replace_guard (RReplaceThm.mk_raw0 RRBase.YEARLY (Some [1; 3]) None) (RReplaceThm.upd_dtstart 1997 9 15) /\
+  RReplace.replace (RReplaceThm.mk_raw0 RRBase.YEARLY (Some [1; 3]) None) (RReplaceThm.upd_dtstart 1997 9 15) =
+  RReplace.replace_spec (RReplaceThm.mk_raw0 RRBase.YEARLY (Some [1; 3]) None) (RReplaceThm.upd_dtstart 1997 9 15) /\
+  (exists ru, RReplace.replace (RReplaceThm.mk_raw0 RRBase.YEARLY (Some [1; 3]) None) (RReplaceThm.upd_dtstart 1997 9 15)
+              = RRBase.Ok ru /\ RRNorm.bymonthday ru = [15]).
+Proof. exact RReplaceThm.replace_guard_example. Qed.
+Print Assumptions C12_replace_example.
 
 (* the hypothesis `incr l` is satisfiable and decidable, and it is needed: *)
 Theorem C12_incr_nonvacuous : incr [1; 3; 7] /\ (forall l, incrb l = true -> incr l).
